@@ -2,6 +2,7 @@
 """prints the table of behaviour-preserving changes (harmless/) for DESIGN.md"""
 import json, os, re
 NOTES = {
+    'C10-h7': 'quiet in C11, C18; ALARM in C10 (no-failing-input-found): the two lock acquisitions of receive() merged into one - the sequence of lock accesses the thread models describe step by step really changes; left as it is (see text)',
     'C10-h2': 'ALARM (C10, no-failing-input-found): the step-by-step replay counted one deque access per append -> additions made inside _receive are one access however they are spelt',
     'C11-h3': 'quiet in C11; ALARM in C10 (same cause as C10-h2)',
     'C18-h3': 'quiet in C18; ALARM in C10 (same cause as C10-h2)',
